@@ -12,7 +12,7 @@ sub-structure rooted at `root`.  The collected set is returned as the list of id
 -/
 namespace Swh.C14
 open Swh Swh.Merkle
-variable {H : Type} {hashFn : Data → List (Name × H) → H}
+variable {H : Type} {hashFn : Data → List (EntryV H) → H}
 
 /-- the state reached by an acyclic history satisfies the invariant of C10, is acyclic, and
 (K): every node marked collected has a cached hash and was reported with exactly that hash -/
